@@ -15,8 +15,10 @@ The disk holds three kinds of objects:
   data.rio have their headers loads as a "version 0" (legacy) table and recovery keeps it: `complete cells` with
   whatever the version-0 reader shows.  This happens (a) in a table writer between the creation of data.rio and
   the creation of meta.pb.bin — the files hold no records yet: `tblLoadable g []`, followed by `tblMetaCreate g` —
-  and (b) when a `RemoveAll` of a table directory unlinks meta.pb.bin BEFORE index.rio / data.rio: `tblLoadable g junk`
-  with mis-parsed content supplied from outside (`AStep.junk`, `detour`);
+  and (b) when the `RemoveAll` of a COMPLETE table (an input of a flagged compaction) unlinks meta.pb.bin before
+  index.rio / data.rio: `tblLoadable g junk` with mis-parsed content supplied from outside (`AStep.junk`, `detour`);
+  such a directory is still listed by the flagged compaction.  An UNFINISHED table is removed by
+  `removeUnfinishedTable`: index.rio first — without it the directory can never load again —, then the rest;
 * WAL files `wal/%06d.wal` in number order: header written or not, the complete records, and whether a piece
   of a further record follows (torn tail);
 * compaction directories `sstable_compaction*`: the table being written and the success flag file
@@ -312,10 +314,6 @@ def cleanRun : Nat → Disk → List Ev
 
 def cleanEvents (d : Disk) : List Ev := cleanRun (mu d) d
 
-/-- an unfinished table only holds records of a store whose WAL file still exists: what it shows when it loads
-(`junk`, supplied from outside) is restricted to keys the log binds -/
-def restrictTo (r : Layer) (junk : Layer) : Layer := junk.filter fun p => (r.get p.1).isSome
-
 def phase3Events (d : Disk) : List Ev :=
   (if d.walDir then [] else [.walDirCreate]) ++
   if !walReadable d.wal then [] else
@@ -330,23 +328,22 @@ def phase3Events (d : Disk) : List Ev :=
 
 def lookupJ (junk : List (Nat × Layer)) (g : Nat) : Option Layer := (junk.find? (·.1 == g)).map (·.2)
 
-/-- `RemoveAll` orders that unlink meta.pb.bin first: before the first unlink of a complete table and before the
-removal of an unfinished one, the directory may be seen WITHOUT metadata file but with loadable index.rio / data.rio,
-i.e. as a legacy table showing `junk g`.  While compaction directories exist the table is an input of the flagged
-compaction (deleted again, content irrelevant); otherwise it is an unfinished table and shows logged keys only. -/
-def detourPre (junk : List (Nat × Layer)) (d : Disk) (g : Nat) : List Ev :=
+/-- `RemoveAll` orders that unlink meta.pb.bin first: before the first unlink of a COMPLETE table (recovery removes
+those only as inputs / replacement of a flagged compaction) the directory may be seen without metadata file but with
+loadable index.rio / data.rio, i.e. as a legacy table showing `junk g`.  (Unfinished tables are removed index.rio
+first, `removeUnfinishedTable`: none of their intermediate states loads.) -/
+def detourPre (junk : List (Nat × Layer)) (g : Nat) : List Ev :=
   match lookupJ junk g with
   | none => []
-  | some j => [.tblLoadable g (if d.comps.isEmpty then restrictTo (applyMuts [] (walMuts d.wal)) j else j)]
+  | some j => [.tblLoadable g j]
 
-def detourFor (junk : List (Nat × Layer)) (d : Disk) : Ev → List Ev
-  | .tblUnlinkPart g true => detourPre junk d g
-  | .tblRmdir g => detourPre junk d g
+def detourFor (junk : List (Nat × Layer)) : Ev → List Ev
+  | .tblUnlinkPart g true => detourPre junk g
   | _ => []
 
 def detour (junk : List (Nat × Layer)) : Disk → List Ev → List Ev
   | _, [] => []
-  | d, e :: es => detourFor junk d e ++ e :: detour junk (applyEv d e) es
+  | d, e :: es => detourFor junk e ++ e :: detour junk (applyEv d e) es
 
 /-- the calls `Open` makes on this disk, in order (`junk`: see `detour`) -/
 def recoverEvents (d : Disk) (junk : List (Nat × Layer) := []) : List Ev :=
